@@ -128,6 +128,27 @@ def touchConn (id : Nat) (f : Conn → Conn) (p : Pool) : Pool :=
     avail := p.avail.map fun (a, cs) => (a, cs.map fun c => if c.id = id then f c else c),
     leases := p.leases.map fun l => { l with conn := l.conn.map fun c => if c.id = id then f c else c } }
 
+/-! ### the pool as a transition system -/
+
+/-- what can happen to a pool: the client's own calls and the peers' actions on sockets the
+client holds -/
+inductive Ev where
+  | acquire (a : Nat) (now : Nat)          -- `ConnectionPool::call`; waits while no permit is free
+  | release (i : Nat) (keepAlive : Bool) (now : Nat)   -- `H1Connection::on_release` of lease `i`
+  | dropLease (i : Nat)                    -- the `H1Connection` of lease `i` is dropped
+  | peerSend (id : Nat) (bs : Bytes)       -- bytes arrive on socket `id`
+  | peerClose (id : Nat)                   -- FIN arrives on socket `id`
+  deriving Repr
+
+def stepEv (cfg : Cfg) (p : Pool) : Ev → Pool
+  | .acquire a now => if canAcquire cfg p then (acquire cfg now a p).1 else p
+  | .release i ka now => release now i ka p
+  | .dropLease i => dropLease i p
+  | .peerSend id bs => touchConn id (fun c => { c with sock := c.sock ++ bs }) p
+  | .peerClose id => touchConn id (fun c => { c with peerClosed := true }) p
+
+def runEvs (cfg : Cfg) (evs : List Ev) : Pool := evs.foldl (stepEv cfg) Pool.empty
+
 /-! ### observables -/
 
 def idleConns (p : Pool) : List Conn := p.avail.flatMap (·.2)
